@@ -107,7 +107,7 @@ impl Meta {
 pub struct Known { pub signature: String, pub what_fails: String }
 
 pub fn load_known(ctx: &Ctx) -> Vec<Known> {
-    let path = format!("{}/known_findings.json", ctx.verif_dir);
+    let path = std::env::var("VERIF_OUT_DIR").map(|d| format!("{d}/known_findings.json")).ok().filter(|p| std::path::Path::new(p).exists()).unwrap_or_else(|| format!("{}/known_findings.json", ctx.verif_dir));
     let Ok(text) = std::fs::read_to_string(&path) else { return vec![] };
     let v: Value = match serde_json::from_str(&text) { Ok(v) => v, Err(e) => { eprintln!("HARNESS-ERROR cannot parse {path}: {e}"); std::process::exit(3) } };
     let mut out = vec![];
@@ -134,7 +134,7 @@ pub fn finish(ctx: &Ctx, report: Report, meta: Meta) -> i32 {
         else { new_violations.push(v); }
     }
     let mut replay_paths = vec![];
-    let replay_dir = format!("{}/replays/{}", ctx.verif_dir, ctx.prop);
+    let replay_dir = format!("{}/replays/{}", ctx.out_dir, ctx.prop);
     if !new_violations.is_empty() { let _ = std::fs::create_dir_all(&replay_dir); }
     for v in &new_violations {
         let path = format!("{}/{:016x}.json", replay_dir, crate::rng::fnv_str(&v.signature));
@@ -175,7 +175,7 @@ pub fn finish(ctx: &Ctx, report: Report, meta: Meta) -> i32 {
         "wall_s": (ctx.elapsed_s() * 100.0).round() / 100.0, "violations": new_violations.len(),
     });
     if ctx.replay.is_none() {
-        let dir = format!("{}/evidence", ctx.verif_dir);
+        let dir = format!("{}/evidence", ctx.out_dir);
         let _ = std::fs::create_dir_all(&dir);
         let path = format!("{}/{}.json", dir, ctx.prop);
         if let Err(e) = std::fs::write(&path, serde_json::to_string_pretty(&evidence).unwrap_or_default() + "\n") {
